@@ -120,21 +120,11 @@ def run(repo, rep):
                 bad = f"{L - 1} slices: scheduler {v}, live range {w}"
         fn = sch.enclosing_function(s)
         rep.check(bad is None, "C03-c", f"ethosu/vela/scheduler.py:{sch.qualname_of(fn)}", f"scheduler's last-buffer index `{norm(s.value)}` agrees with the live-range extraction", bad or "")
-    # buffer k of an operator is created with double_buffer_sizes[k] (the generator DMAs slice k into buffer k % n with the slice's real size)
-    pw = sch.func("Scheduler.propose_weight_buffering")
-    created = []
-    for st in ast.walk(pw):
-        for c in calls_in(st, "self.buffer_tensor") if isinstance(st, (ast.Assign, ast.Expr)) else []:
-            if len(c.args) >= 4:
-                created.append((st.lineno, c))
-    created = sorted({id(c): (ln, c) for ln, c in created}.values(), key=lambda t: (t[1].lineno, t[1].col_offset))
-    names = [try_fold(c.args[3].right) if isinstance(c.args[3], ast.BinOp) else None for _, c in created]
-    if len(created) != 2 or names != ["_buffer", "_buffer2"]:
-        raise AnalysisError(f"propose_weight_buffering: the two weight buffers (_buffer, _buffer2) were not recognised: {names}")
-    for k, (_, c) in enumerate(created):
-        sz = norm(c.args[2])
-        rep.check(sz == f"encoded_weights.double_buffer_sizes[{k}]", "C03-c", "ethosu/vela/scheduler.py:Scheduler.propose_weight_buffering", f"weight buffer {k} ({names[k]}) is sized double_buffer_sizes[{k}]",
-                  f"sized `{sz}`: depth slices k with k % 2 == {k} are DMAed into it with their own length, which can exceed the buffer and its live range")
+    # buffer j of a double-buffered operator holds double_buffer_sizes[j]; the single buffer of the Standard case holds the largest
+    # slice of all (the generator DMAs slice k into buffer k % n with the slice's real size) [rule shared with C02-f]
+    from . import c02
+
+    rep.run_borrowed(c02, {"C02-f": "C03-c"}, repo, only_sites=("propose_weight_buffering", "generate_high_level_commands_for_sched_op"))
     st_ = sch.func("Scheduler.propose_schedule_striping")
     bt = [c for c in calls_in(st_, "self.buffer_tensor")]
     en_ = [l for l in ast.walk(st_) if isinstance(l, ast.For) and "buffered_weight_tensors" in norm(l.iter) and call_name(l.iter) == "enumerate"]
